@@ -127,6 +127,23 @@ func genVal(r *sim.Rand, n int, small bool) []byte {
 
 // Gen generates a script for C09, C11 or C13.
 func Gen(prop string, r *sim.Rand, tier string) sim.Script {
+	sc := gen0(prop, r, tier)
+	// options added later are drawn last
+	if s, ok := sc.(*WScript); ok && s.Store == "simkv" && (prop == "C11" || prop == "C13" || prop == "C09") && r.Chance(1, 6) {
+		// I/O errors without a crash: some batch writes (of commits and of collector passes) fail once and are repeated
+		for i := range s.Ops {
+			if (s.Ops[i].K == "commit" || s.Ops[i].K == "gc" || s.Ops[i].K == "rollback") && !s.Ops[i].D && r.Chance(1, 3) {
+				s.Ops[i].E = true
+			}
+			if s.Ops[i].K == "commit" && prop == "C11" && r.Chance(1, 3) {
+				s.Ops[i].R = true
+			}
+		}
+	}
+	return sc
+}
+
+func gen0(prop string, r *sim.Rand, tier string) sim.Script {
 	s := &WScript{Prop: prop, Store: "simkv"}
 	if r.Chance(1, 12) {
 		s.Store = "pebble"
